@@ -14,6 +14,9 @@ import GradysProofs.Lemmas.GeoSmall
   * `C20_axes_signs`, `C20_axes_closed_form` which leg goes where, with which sign, all four quadrants
   * `C20_meridian_exact`                     exact distances along the reference meridian (F20's statement)
   * `C20_small_offsets` (`_box`, `C20_within_5km_in_box`)  the general 0.5 % bound, proved with 0.3 %
+  * `C20_zero_offsets`                       a target at the reference's latitude and longitude maps to (0, 0, Δalt) —
+                                             the altitude difference is kept —; a target on the reference meridian
+                                             has x = 0, on the reference parallel y = 0
   * `C20_goto_geo`                           geographic goto = Cartesian goto to the converted point (any scalar)
   * `C20_pinned_mirror_distance`             what the pinned assignment of the legs does (F20)
 -/
@@ -141,6 +144,36 @@ theorem C20_axes_closed_form (ref tgt : V3 ℝ) (hφ : |rad ref.x| ≤ π / 2)
     · have h0 : rad tgt.x - rad ref.x < 0 := by
         by_contra hh; exact h ((rad_le_iff _ _).mpr (not_lt.mp hh))
       rw [if_neg h, abs_of_neg h0]; ring
+
+/-- Zero offsets (`|φ₀| ≤ π/2`): a target with exactly the reference's latitude and longitude — the
+    point straight above or below it, "hover over home" — is converted to `(0, 0, Δalt)`: it lies
+    on the vertical axis of the local frame and its altitude difference is preserved.  A target on the
+    reference meridian has `x = 0`, a target on the reference parallel has `y = 0`, the other two
+    coordinates as in the closed form. -/
+theorem C20_zero_offsets (ref : V3 ℝ) (hφ : |rad ref.x| ≤ π / 2) :
+    (∀ alt : ℝ, geoToCartesian ref ⟨ref.x, ref.y, alt⟩ = ⟨0, 0, alt - ref.z⟩) ∧
+    (∀ lat alt : ℝ, |rad lat - rad ref.x| ≤ π →
+        geoToCartesian ref ⟨lat, ref.y, alt⟩ = ⟨0, R * (rad lat - rad ref.x), alt - ref.z⟩) ∧
+    (∀ lon alt : ℝ, |rad lon - rad ref.y| ≤ π →
+        geoToCartesian ref ⟨ref.x, lon, alt⟩
+          = ⟨2 * R * arcsin (cos (rad ref.x) * sin ((rad lon - rad ref.y) / 2)), 0, alt - ref.z⟩) := by
+  have h0 : |(0:ℝ)| ≤ π := by rw [abs_zero]; exact pi_pos.le
+  refine ⟨fun alt => ?_, fun lat alt h => ?_, fun lon alt h => ?_⟩
+  · rw [C20_axes_closed_form ref ⟨ref.x, ref.y, alt⟩ hφ (by simpa using h0) (by simpa using h0)]
+    simp
+  · rw [C20_axes_closed_form ref ⟨lat, ref.y, alt⟩ hφ h (by simpa using h0)]
+    simp
+  · rw [C20_axes_closed_form ref ⟨ref.x, lon, alt⟩ hφ (by simpa using h0) h]
+    simp
+
+/-- non-vacuity: home at (−22.9°, −43.2°, 10 m), the hover point 50 m above it -/
+example : geoToCartesian (⟨-22.9, -43.2, 10⟩ : V3 ℝ) ⟨-22.9, -43.2, 60⟩ = ⟨0, 0, 60 - 10⟩ := by
+  have := (C20_zero_offsets (⟨-22.9, -43.2, 10⟩ : V3 ℝ) ?_).1 60
+  · exact this
+  · show |rad (-22.9)| ≤ π / 2
+    unfold rad
+    rw [abs_le]
+    constructor <;> nlinarith [pi_pos]
 
 /-! ### metric faithfulness along the reference meridian (the statement the pinned code fails) -/
 
